@@ -523,7 +523,7 @@ class Gen:
 
     def t_goto(self, sc, depth, ind):
         self.f("stmt:goto")
-        g, l = self.fresh("g"), self.fresh("Lg")
+        g, l = self.fresh("gt"), self.fresh("Lg")
         return [ind + "%s := 0" % g, ind[:-1] + l + ":", ind + "%s++" % g, ind + "if %s < %s {" % (g, self.pick(["2", "3", "4"])),
                 ind + "\tgoto %s" % l, ind + "}", ind + "fmt.Println(\"goto\", %s)" % g]
 
@@ -600,7 +600,7 @@ class Gen:
 
     def t_multi_assign(self, sc, depth, ind):
         self.f("stmt:multi-assign")
-        a, b, xs = self.fresh("a"), self.fresh("b"), self.fresh("sw")
+        a, b, xs = self.fresh("ma"), self.fresh("mb"), self.fresh("ms")
         return [ind + "%s, %s := %s, %s" % (a, b, self.expr(INT, sc, 2), self.expr(INT, sc, 2)),
                 ind + "%s, %s = %s, %s+%s" % (a, b, b, a, b),
                 ind + "%s := append([]int{7, 8}, %s)" % (xs, a),
